@@ -1,9 +1,438 @@
 (* Lemmas about model/Metavars.v (C20). *)
 From Coq Require Import String.
-From Coq Require Import List NArith Bool Lia.
+From Coq Require Import List NArith ZArith Bool Lia ZifyBool ZifyNat ZifyN.
 From AV Require Import model.Proto model.Metavars.
 Import ListNotations.
 Open Scope N_scope.
+Ltac Zify.zify_post_hook ::= Z.div_mod_to_equations.
+
+(* ------------------------------------------------------------------ *)
+(* strings                                                             *)
 
 Lemma str_eqb_refl : forall a, str_eqb a a = true.
 Proof. induction a as [|x a IH]; cbn [str_eqb]; [reflexivity|]. rewrite N.eqb_refl, IH. reflexivity. Qed.
+
+Lemma str_eqb_eq : forall a b, str_eqb a b = true <-> a = b.
+Proof.
+  induction a as [|x a IH]; destruct b as [|y b]; cbn [str_eqb]; split; intro H;
+    try reflexivity; try discriminate.
+  - apply andb_true_iff in H. destruct H as [H1 H2]. apply N.eqb_eq in H1. apply IH in H2. congruence.
+  - injection H as -> ->. rewrite N.eqb_refl. cbn [andb]. apply str_eqb_refl.
+Qed.
+
+Lemma str_eqb_neq : forall a b, str_eqb a b = false <-> a <> b.
+Proof.
+  intros a b. split.
+  - intros H E. apply str_eqb_eq in E. congruence.
+  - intro H. destruct (str_eqb a b) eqn:E; [|reflexivity]. apply str_eqb_eq in E. contradiction.
+Qed.
+
+(* ------------------------------------------------------------------ *)
+(* the ordered map                                                     *)
+
+Definition names (f : file) : list (list N) := map p_name (f_props f).
+
+(* the abstract ordered map: an association list with first-match lookup *)
+Fixpoint alookup (n : list N) (l : list (list N * list N)) : option (list N) :=
+  match l with
+  | [] => None
+  | (k, v) :: r => if str_eqb k n then Some v else alookup n r
+  end.
+Definition abs (f : file) : list (list N * list N) := map (fun p => (p_name p, p_value p)) (f_props f).
+
+Lemma get_prop_none : forall n ps, get_prop n ps = None <-> ~ In n (map p_name ps).
+Proof.
+  induction ps as [|p ps IH]; cbn [get_prop map In]; [tauto|].
+  destruct (str_eqb (p_name p) n) eqn:E.
+  - apply str_eqb_eq in E. split; [discriminate|]. intro H. exfalso. apply H. left. exact E.
+  - apply str_eqb_neq in E. rewrite IH. tauto.
+Qed.
+
+Lemma get_prop_some : forall n ps p, get_prop n ps = Some p ->
+  exists l1 l2, ps = l1 ++ p :: l2 /\ p_name p = n /\ ~ In n (map p_name l1).
+Proof.
+  induction ps as [|q ps IH]; cbn [get_prop]; intros p H; [discriminate|].
+  destruct (str_eqb (p_name q) n) eqn:E.
+  - injection H as <-. apply str_eqb_eq in E. exists [], ps. cbn. tauto.
+  - apply str_eqb_neq in E. destruct (IH p H) as (l1 & l2 & -> & Hn & Hni).
+    exists (q :: l1), l2. cbn [app map In]. repeat split; [exact Hn|]. tauto.
+Qed.
+
+Lemma file_get_alookup : forall n f, file_get n f = alookup n (abs f).
+Proof.
+  intros n [pkg ps]. unfold file_get, abs. cbn [f_props].
+  induction ps as [|p ps IH]; cbn [get_prop map alookup option_map]; [reflexivity|].
+  destruct (str_eqb (p_name p) n); [reflexivity|exact IH].
+Qed.
+
+Lemma file_get_none : forall n f, file_get n f = None <-> ~ In n (names f).
+Proof.
+  intros n f. unfold file_get, names. rewrite <- get_prop_none.
+  destruct (get_prop n (f_props f)); cbn [option_map]; split; congruence.
+Qed.
+
+Lemma file_add_spec : forall p f,
+  (In (p_name p) (names f) -> file_add p f = Err $"exists") /\
+  (~ In (p_name p) (names f) -> file_add p f = Ok (mkFile (f_pkg f) (f_props f ++ [p]))).
+Proof.
+  intros p f. unfold file_add, names.
+  destruct (get_prop (p_name p) (f_props f)) eqn:E.
+  - split; [reflexivity|]. intro H. apply get_prop_none in H. congruence.
+  - split; [|reflexivity]. intro H. apply get_prop_none in E. contradiction.
+Qed.
+
+Lemma get_prop_app : forall n l1 l2,
+  get_prop n (l1 ++ l2) = match get_prop n l1 with Some p => Some p | None => get_prop n l2 end.
+Proof.
+  induction l1 as [|q l1 IH]; intro l2; cbn [app get_prop]; [reflexivity|].
+  destruct (str_eqb (p_name q) n); [reflexivity|apply IH].
+Qed.
+
+Lemma file_get_add : forall p f n,
+  ~ In (p_name p) (names f) ->
+  file_get n (mkFile (f_pkg f) (f_props f ++ [p])) =
+    match file_get n f with Some v => Some v | None => if str_eqb (p_name p) n then Some (p_value p) else None end.
+Proof.
+  intros p f n _. unfold file_get. cbn [f_props]. rewrite get_prop_app.
+  destruct (get_prop n (f_props f)); cbn [option_map get_prop]; [reflexivity|].
+  destruct (str_eqb (p_name p) n); reflexivity.
+Qed.
+
+Lemma set_prop_none : forall n v ps, set_prop n v ps = None <-> ~ In n (map p_name ps).
+Proof.
+  induction ps as [|p ps IH]; cbn [set_prop map In]; [tauto|].
+  destruct (str_eqb (p_name p) n) eqn:E.
+  - apply str_eqb_eq in E. split; [discriminate|]. intro H. exfalso. apply H. left. exact E.
+  - apply str_eqb_neq in E. destruct (set_prop n v ps); cbn [option_map].
+    + split; [discriminate|]. intro H. exfalso. assert (~ In n (map p_name ps)) as H1 by tauto. apply IH in H1. discriminate.
+    + split; [|reflexivity]. intros _. assert (~ In n (map p_name ps)) by (apply IH; reflexivity). tauto.
+Qed.
+
+Lemma set_prop_some : forall n v ps ps', set_prop n v ps = Some ps' ->
+  exists l1 q l2, ps = l1 ++ q :: l2 /\ ps' = l1 ++ mkProp (p_name q) (p_doc q) v :: l2
+                  /\ p_name q = n /\ ~ In n (map p_name l1).
+Proof.
+  induction ps as [|p ps IH]; cbn [set_prop]; intros ps' H; [discriminate|].
+  destruct (str_eqb (p_name p) n) eqn:E.
+  - injection H as <-. apply str_eqb_eq in E. exists [], p, ps. cbn. tauto.
+  - apply str_eqb_neq in E. destruct (set_prop n v ps) as [qs|] eqn:E2; cbn [option_map] in H; [|discriminate].
+    injection H as <-. destruct (IH qs eq_refl) as (l1 & q & l2 & -> & -> & Hn & Hni).
+    exists (p :: l1), q, l2. cbn [app map In]. repeat split; [exact Hn|]. tauto.
+Qed.
+
+Lemma file_set_spec : forall n v f,
+  (~ In n (names f) -> file_set n v f = Err $"unknown") /\
+  (In n (names f) -> exists l1 q l2,
+      f_props f = l1 ++ q :: l2 /\ p_name q = n /\ ~ In n (map p_name l1) /\
+      file_set n v f = Ok (mkFile (f_pkg f) (l1 ++ mkProp n (p_doc q) v :: l2))).
+Proof.
+  intros n v f. unfold file_set, names.
+  destruct (set_prop n v (f_props f)) as [ps'|] eqn:E.
+  - split.
+    + intro H. apply (set_prop_none n v) in H. congruence.
+    + intros _. destruct (set_prop_some _ _ _ _ E) as (l1 & q & l2 & H1 & -> & Hn & Hni).
+      exists l1, q, l2. rewrite Hn. tauto.
+  - split; [reflexivity|]. intro H. apply set_prop_none in E. contradiction.
+Qed.
+
+(* lookups after a successful Set *)
+Lemma file_get_set : forall n v pkg l1 q l2 m,
+  p_name q = n -> ~ In n (map p_name l1) ->
+  file_get m (mkFile pkg (l1 ++ mkProp n (p_doc q) v :: l2)) =
+    if str_eqb n m then Some v else file_get m (mkFile pkg (l1 ++ q :: l2)).
+Proof.
+  intros n v pkg l1 q l2 m Hq Hni. unfold file_get. cbn [f_props]. rewrite !get_prop_app.
+  destruct (str_eqb n m) eqn:E.
+  - apply str_eqb_eq in E. subst m. apply get_prop_none in Hni. rewrite Hni.
+    cbn [get_prop p_name]. rewrite str_eqb_refl. reflexivity.
+  - destruct (get_prop m l1); [reflexivity|]. cbn [get_prop p_name]. rewrite Hq, E. reflexivity.
+Qed.
+
+(* ------------------------------------------------------------------ *)
+(* hexadecimal digits                                                  *)
+
+Lemma unhex_hexchar : forall d, d < 16 -> unhex (hexchar d) = Some d.
+Proof.
+  intros d H. unfold unhex, hexchar. destruct (d <? 10) eqn:E.
+  - assert (((48 <=? 48 + d) && (48 + d <=? 57)) = true) as -> by lia. f_equal. lia.
+  - assert (((48 <=? 87 + d) && (87 + d <=? 57)) = false) as -> by lia.
+    assert (((97 <=? 87 + d) && (87 + d <=? 102)) = true) as -> by lia. f_equal. lia.
+Qed.
+
+Lemma read_hex_digits : forall k r acc rest,
+  read_hex k acc (hex_digits k r ++ rest) = Some (acc * 16 ^ N.of_nat k + r mod 16 ^ N.of_nat k).
+Proof.
+  induction k as [|k IH]; intros r acc rest.
+  - cbn [read_hex hex_digits app]. f_equal. change (16 ^ N.of_nat 0) with 1. rewrite N.mod_1_r. lia.
+  - cbn [read_hex hex_digits app].
+    rewrite unhex_hexchar by (apply N.mod_upper_bound; lia).
+    rewrite IH. f_equal.
+    rewrite Nat2N.inj_succ, N.pow_succ_r'.
+    assert (16 ^ N.of_nat k <> 0) as Hp by (apply N.pow_nonzero; lia).
+    rewrite (N.mul_comm 16 (16 ^ N.of_nat k)).
+    rewrite (N.mod_mul_r r (16 ^ N.of_nat k) 16) by (assumption || lia).
+    lia.
+Qed.
+
+Lemma read_hex_small : forall k r rest, r < 16 ^ N.of_nat k ->
+  read_hex k 0 (hex_digits k r ++ rest) = Some r.
+Proof. intros. rewrite read_hex_digits. f_equal. rewrite N.mod_small by assumption. lia. Qed.
+
+Lemma hex_digits_length : forall k r, length (hex_digits k r) = k.
+Proof. induction k; intro r; cbn [hex_digits length]; [reflexivity|]. f_equal. apply IHk. Qed.
+
+(* ------------------------------------------------------------------ *)
+(* UTF-8: encode after decode                                          *)
+
+Lemma enc2 : forall b0 b1, 194 <= b0 <= 223 -> 128 <= b1 <= 191 ->
+  let r := (b0 - 192) * 64 + (b1 - 128) in
+  encode_rune r = [b0; b1] /\ valid_rune r = true /\ 128 <= r < 65536.
+Proof.
+  intros b0 b1 H0 H1 r. subst r. unfold encode_rune, valid_rune.
+  set (r := (b0 - 192) * 64 + (b1 - 128)).
+  assert (128 <= r < 2048) as Hr by (subst r; lia).
+  assert ((r <? 128) = false) as -> by lia.
+  assert ((r <? 2048) = true) as -> by lia.
+  split; [|split; lia].
+  assert (r / 64 = b0 - 192 /\ r mod 64 = b1 - 128) as [-> ->] by (subst r; lia).
+  f_equal; [lia|f_equal; lia].
+Qed.
+
+Lemma enc3 : forall b0 b1 b2, 224 <= b0 <= 239 ->
+  (if b0 =? 224 then 160 else 128) <= b1 <= (if b0 =? 237 then 159 else 191) -> 128 <= b2 <= 191 ->
+  let r := (b0 - 224) * 4096 + (b1 - 128) * 64 + (b2 - 128) in
+  encode_rune r = [b0; b1; b2] /\ valid_rune r = true /\ 128 <= r < 65536.
+Proof.
+  intros b0 b1 b2 H0 H1 H2 r. subst r. unfold encode_rune, valid_rune.
+  set (r := (b0 - 224) * 4096 + (b1 - 128) * 64 + (b2 - 128)).
+  assert (2048 <= r < 65536 /\ (r < 55296 \/ 57343 < r)) as Hr.
+  { subst r. destruct (b0 =? 224) eqn:E1; destruct (b0 =? 237) eqn:E2; lia. }
+  assert ((r <? 128) = false) as -> by lia.
+  assert ((r <? 2048) = false) as -> by lia.
+  assert (((r <? 55296) || ((57343 <? r) && (r <=? 1114111))) = true) as -> by lia.
+  cbn [negb]. assert ((r <? 65536) = true) as -> by lia.
+  split; [|split; [reflexivity|lia]].
+  assert (128 <= b1 <= 191) as H1' by (destruct (b0 =? 224); destruct (b0 =? 237); lia).
+  assert (r / 4096 = b0 - 224 /\ (r / 64) mod 64 = b1 - 128 /\ r mod 64 = b2 - 128) as (-> & -> & ->) by (subst r; lia).
+  repeat f_equal; lia.
+Qed.
+
+Lemma enc4 : forall b0 b1 b2 b3, 240 <= b0 <= 244 ->
+  (if b0 =? 240 then 144 else 128) <= b1 <= (if b0 =? 244 then 143 else 191) ->
+  128 <= b2 <= 191 -> 128 <= b3 <= 191 ->
+  let r := (b0 - 240) * 262144 + (b1 - 128) * 4096 + (b2 - 128) * 64 + (b3 - 128) in
+  encode_rune r = [b0; b1; b2; b3] /\ valid_rune r = true /\ 65536 <= r.
+Proof.
+  intros b0 b1 b2 b3 H0 H1 H2 H3 r. subst r. unfold encode_rune, valid_rune.
+  set (r := (b0 - 240) * 262144 + (b1 - 128) * 4096 + (b2 - 128) * 64 + (b3 - 128)).
+  assert (65536 <= r <= 1114111) as Hr.
+  { subst r. destruct (b0 =? 240) eqn:E1; destruct (b0 =? 244) eqn:E2; lia. }
+  assert ((r <? 128) = false) as -> by lia.
+  assert ((r <? 2048) = false) as -> by lia.
+  assert (((r <? 55296) || ((57343 <? r) && (r <=? 1114111))) = true) as -> by lia.
+  cbn [negb]. assert ((r <? 65536) = false) as -> by lia.
+  split; [|split; [reflexivity|lia]].
+  assert (128 <= b1 <= 191) as H1' by (destruct (b0 =? 240); destruct (b0 =? 244); lia).
+  assert (r / 262144 = b0 - 240 /\ (r / 4096) mod 64 = b1 - 128 /\ (r / 64) mod 64 = b2 - 128 /\ r mod 64 = b3 - 128)
+    as (-> & -> & -> & ->) by (subst r; lia).
+  repeat f_equal; lia.
+Qed.
+
+Definition good_decode (s : list N) (r : N) (w : nat) : Prop :=
+  (1 <= w)%nat /\ encode_rune r = firstn w s /\ length (firstn w s) = w /\ valid_rune r = true /\
+  (forall t, decode_rune (firstn w s ++ t) = (r, w)) /\
+  ((w = 1%nat /\ r < 128 /\ firstn w s = [r]) \/ ((1 < w)%nat /\ 128 <= r /\ 128 <= hd 0 s)).
+
+Lemma decode_spec : forall s, s <> [] ->
+  (is_bad (decode_rune s) = true /\ snd (decode_rune s) = 1%nat) \/
+  (is_bad (decode_rune s) = false /\ good_decode s (fst (decode_rune s)) (snd (decode_rune s))).
+Proof.
+  intros s Hs. destruct s as [|b0 s]; [congruence|]. clear Hs.
+  unfold decode_rune.
+  destruct (b0 <? 128) eqn:E0.
+  { right. cbn [fst snd]. split.
+    - unfold is_bad. cbn [fst snd Nat.eqb andb]. unfold rune_error. lia.
+    - unfold good_decode. cbn [firstn length hd app].
+      split; [lia|]. split; [unfold encode_rune; rewrite E0; reflexivity|].
+      split; [reflexivity|]. split; [unfold valid_rune; lia|].
+      split; [intro t; unfold decode_rune; rewrite E0; reflexivity|].
+      left. split; [reflexivity|]. split; [lia|reflexivity]. }
+  destruct ((194 <=? b0) && (b0 <=? 223)) eqn:E1.
+  { destruct s as [|b1 s]; [left; split; reflexivity|].
+    destruct (is_cont b1) eqn:C1; [|left; split; reflexivity].
+    right. cbn [fst snd]. split; [reflexivity|].
+    unfold is_cont in C1.
+    destruct (enc2 b0 b1 ltac:(lia) ltac:(lia)) as (He & Hv & Hr).
+    unfold good_decode. cbn [firstn length hd app].
+    split; [lia|]. split; [exact He|]. split; [reflexivity|]. split; [exact Hv|].
+    split; [intro t; unfold decode_rune; rewrite E0, E1; unfold is_cont; rewrite C1; reflexivity|].
+    right. split; [lia|]. split; lia. }
+  destruct ((224 <=? b0) && (b0 <=? 239)) eqn:E2.
+  { destruct s as [|b1 [|b2 s]]; try (left; split; reflexivity).
+    match goal with |- context [if ?c then _ else _] => destruct c eqn:C end; [|left; split; reflexivity].
+    right. cbn [fst snd]. split; [reflexivity|].
+    apply andb_true_iff in C. destruct C as [C C2]. apply andb_true_iff in C. destruct C as [Ca Cb].
+    unfold is_cont in C2.
+    destruct (enc3 b0 b1 b2 ltac:(lia) ltac:(lia) ltac:(lia)) as (He & Hv & Hr).
+    unfold good_decode. cbn [firstn length hd app].
+    split; [lia|]. split; [exact He|]. split; [reflexivity|]. split; [exact Hv|].
+    split; [intro t; unfold decode_rune; rewrite E0, E1, E2, Ca, Cb; unfold is_cont; rewrite C2; reflexivity|].
+    right. split; [lia|]. split; lia. }
+  destruct ((240 <=? b0) && (b0 <=? 244)) eqn:E3.
+  { destruct s as [|b1 [|b2 [|b3 s]]]; try (left; split; reflexivity).
+    match goal with |- context [if ?c then _ else _] => destruct c eqn:C end; [|left; split; reflexivity].
+    right. cbn [fst snd]. split; [reflexivity|].
+    apply andb_true_iff in C. destruct C as [C C3]. apply andb_true_iff in C. destruct C as [C C2].
+    apply andb_true_iff in C. destruct C as [Ca Cb].
+    unfold is_cont in C2, C3.
+    destruct (enc4 b0 b1 b2 b3 ltac:(lia) ltac:(lia) ltac:(lia) ltac:(lia)) as (He & Hv & Hr).
+    unfold good_decode. cbn [firstn length hd app].
+    split; [lia|]. split; [exact He|]. split; [reflexivity|]. split; [exact Hv|].
+    split; [intro t; unfold decode_rune; rewrite E0, E1, E2, E3, Ca, Cb; unfold is_cont; rewrite C2, C3; reflexivity|].
+    right. split; [lia|]. split; lia. }
+  left. split; reflexivity.
+Qed.
+
+(* ------------------------------------------------------------------ *)
+(* Unquote after Quote                                                 *)
+
+Definition bytes (s : list N) : Prop := Forall (fun b => b < 256) s.
+
+Lemma unq_skip : forall a k t, length a = k -> unq_loop k (a ++ t) = unq_loop 0 t.
+Proof.
+  induction a as [|x a IH]; intros k t H; cbn [length] in H; subst k; [reflexivity|].
+  cbn [app unq_loop]. apply IH. reflexivity.
+Qed.
+
+Lemma quote_body_skip : forall cls s k, quote_body cls k s = quote_body cls 0 (skipn k s).
+Proof.
+  induction s as [|x s IH]; intro k; destruct k as [|k]; try reflexivity.
+  cbn [quote_body skipn]. apply IH.
+Qed.
+
+(* unquote_char on each escape form *)
+Lemma uqc_x : forall r2, unquote_char (92 :: 120 :: r2) =
+  match read_hex 2 0 r2 with Some v => Some ([v], 4%nat) | None => None end.
+Proof. reflexivity. Qed.
+Lemma uqc_u : forall r2, unquote_char (92 :: 117 :: r2) =
+  match read_hex 4 0 r2 with
+  | Some v => if valid_rune v then Some (encode_rune v, 6%nat) else None
+  | None => None end.
+Proof. reflexivity. Qed.
+Lemma uqc_U : forall r2, unquote_char (92 :: 85 :: r2) =
+  match read_hex 8 0 r2 with
+  | Some v => if valid_rune v then Some (encode_rune v, 10%nat) else None
+  | None => None end.
+Proof. reflexivity. Qed.
+Lemma uqc_ascii : forall c r, c < 128 -> c <> 34 -> c <> 92 -> unquote_char (c :: r) = Some ([c], 1%nat).
+Proof.
+  intros c r H1 H2 H3. unfold unquote_char.
+  assert ((c =? 34) = false) as -> by lia. assert ((128 <=? c) = false) as -> by lia.
+  assert ((c =? 92) = false) as -> by lia. reflexivity.
+Qed.
+Lemma uqc_multi : forall c r, 128 <= c ->
+  unquote_char (c :: r) = Some (encode_rune (fst (decode_rune (c :: r))), snd (decode_rune (c :: r))).
+Proof.
+  intros c r H. unfold unquote_char.
+  assert ((c =? 34) = false) as -> by lia. assert ((128 <=? c) = true) as -> by lia. reflexivity.
+Qed.
+
+Lemma unit_roundtrip : forall cls s t, bytes s -> s <> [] ->
+  exists c u', quote_unit cls s = c :: u' /\ c <> 34 /\ c <> 10 /\
+     unquote_char (c :: u' ++ t) = Some (firstn (snd (decode_rune s)) s, S (length u')) /\
+     (1 <= snd (decode_rune s))%nat.
+Proof.
+  intros cls s t Hb Hs. unfold quote_unit.
+  destruct (decode_spec s Hs) as [[Hbad Hw]|[Hbad Hg]]; rewrite Hbad.
+  - (* invalid byte *)
+    destruct s as [|b0 s]; [congruence|]. cbn [hd]. rewrite Hw. cbn [firstn].
+    assert (b0 < 256) as Hb0 by (inversion Hb; assumption).
+    exists 92, (120 :: hex_digits 2 b0). split; [reflexivity|]. split; [lia|]. split; [lia|]. split; [|lia].
+    cbn [app]. rewrite uqc_x, read_hex_small by (cbn; lia). cbn [length]. rewrite hex_digits_length. reflexivity.
+  - set (r := fst (decode_rune s)) in *. set (w := snd (decode_rune s)) in *.
+    destruct Hg as (Hw1 & Henc & Hlen & Hval & Hdec & Hcase).
+    assert (forall x, r = x -> x < 128 -> firstn w s = [x] /\ w = 1%nat) as Hsmall.
+    { intros x <- Hx. destruct Hcase as [(-> & _ & Hf)|(_ & Hr & _)]; [tauto|lia]. }
+    unfold escape_rune.
+    destruct ((r =? 34) || (r =? 92)) eqn:E1.
+    { assert (r < 128) as Hr by lia. destruct (Hsmall r eq_refl Hr) as [Hf _]. rewrite Hf.
+      exists 92, [r]. split; [reflexivity|]. split; [lia|]. split; [lia|]. split; [|lia].
+      cbn [app length]. destruct (r =? 34) eqn:E34.
+      - assert (r = 34) as -> by lia. reflexivity.
+      - assert (r = 92) as -> by lia. reflexivity. }
+    destruct (is_print cls r) eqn:E2.
+    { rewrite Henc. destruct Hcase as [(Hw & Hr & Hf)|(Hw & Hr & Hhd)].
+      - rewrite Hf. exists r, []. unfold is_print in E2.
+        assert ((r <? 128) = true) as Hlt by lia. rewrite Hlt in E2.
+        split; [reflexivity|]. split; [lia|]. split; [lia|]. split; [|lia].
+        cbn [app length]. apply uqc_ascii; lia.
+      - destruct s as [|b0 s']; [congruence|]. cbn [hd] in Hhd.
+        destruct w as [|w']; [lia|]. cbn [firstn].
+        exists b0, (firstn w' s'). split; [reflexivity|]. split; [lia|]. split; [lia|]. split; [|lia].
+        change (b0 :: firstn w' s' ++ t) with (firstn (S w') (b0 :: s') ++ t).
+        cbn [firstn length] in Hlen. injection Hlen as Hlen. rewrite Hlen.
+        cbn [firstn app]. rewrite uqc_multi by exact Hhd.
+        change (b0 :: firstn w' s' ++ t) with (firstn (S w') (b0 :: s') ++ t).
+        rewrite Hdec. cbn [fst snd]. rewrite Henc. reflexivity. }
+    (* the named escapes *)
+    assert (forall x e, r = x -> x < 128 -> unquote_char (92 :: e :: t) = Some ([x], 2%nat) -> e <> 34 ->
+      exists c u', [92; e] = c :: u' /\ c <> 34 /\ c <> 10 /\
+        unquote_char (c :: u' ++ t) = Some (firstn w s, S (length u')) /\ (1 <= w)%nat) as Hnamed.
+    { intros x e Hx Hlt Hu He. destruct (Hsmall x Hx Hlt) as [Hf _]. rewrite Hf.
+      exists 92, [e]. split; [reflexivity|]. split; [lia|]. split; [lia|]. split; [exact Hu|lia]. }
+    destruct (r =? 7) eqn:E7. { apply (Hnamed 7 97); try lia; reflexivity. }
+    destruct (r =? 8) eqn:E8. { apply (Hnamed 8 98); try lia; reflexivity. }
+    destruct (r =? 12) eqn:E12. { apply (Hnamed 12 102); try lia; reflexivity. }
+    destruct (r =? 10) eqn:E10. { apply (Hnamed 10 110); try lia; reflexivity. }
+    destruct (r =? 13) eqn:E13. { apply (Hnamed 13 114); try lia; reflexivity. }
+    destruct (r =? 9) eqn:E9. { apply (Hnamed 9 116); try lia; reflexivity. }
+    destruct (r =? 11) eqn:E11. { apply (Hnamed 11 118); try lia; reflexivity. }
+    destruct ((r <? 32) || (r =? 127)) eqn:E3.
+    { assert (r < 128) as Hr by lia. destruct (Hsmall r eq_refl Hr) as [Hf _]. rewrite Hf.
+      exists 92, (120 :: hex_digits 2 r). split; [reflexivity|]. split; [lia|]. split; [lia|]. split; [|lia].
+      cbn [app]. rewrite uqc_x, read_hex_small by (cbn; lia). cbn [length]. rewrite hex_digits_length. reflexivity. }
+    rewrite Hval. cbn [negb].
+    destruct (r <? 65536) eqn:E4.
+    { exists 92, (117 :: hex_digits 4 r). split; [reflexivity|]. split; [lia|]. split; [lia|]. split; [|lia].
+      cbn [app]. rewrite uqc_u, read_hex_small by (cbn; lia). cbn [length]. rewrite Hval, Henc, hex_digits_length. reflexivity. }
+    exists 92, (85 :: hex_digits 8 r). split; [reflexivity|]. split; [lia|]. split; [lia|]. split; [|lia].
+    assert (r < 16 ^ N.of_nat 8) as Hr8 by (unfold valid_rune in Hval; cbn; lia).
+    cbn [app]. rewrite uqc_U, read_hex_small by exact Hr8. cbn [length]. rewrite Hval, Henc, hex_digits_length. reflexivity.
+Qed.
+
+Lemma bytes_skipn : forall k s, bytes s -> bytes (skipn k s).
+Proof.
+  induction k as [|k IH]; intros s H; [exact H|]. destruct s as [|x s]; [exact H|].
+  cbn [skipn]. apply IH. inversion H; assumption.
+Qed.
+
+(* the unquote loop run on the quoted body recovers the string and stops at the closing quote *)
+Lemma unq_loop_quote_body : forall cls n s rem, (length s <= n)%nat -> bytes s ->
+  unq_loop 0 (quote_body cls 0 s ++ 34 :: rem) = Some (s, rem).
+Proof.
+  induction n as [|n IH]; intros s rem Hn Hb.
+  - destruct s; [reflexivity|cbn [length] in Hn; lia].
+  - destruct s as [|b0 s']; [reflexivity|].
+    set (s := b0 :: s') in *.
+    assert (s <> []) as Hs by (subst s; discriminate).
+    destruct (unit_roundtrip cls s (quote_body cls 0 (skipn (snd (decode_rune s)) s) ++ 34 :: rem) Hb Hs)
+      as (c & u' & Hu & Hc34 & Hc10 & Huq & Hw).
+    set (w := snd (decode_rune s)) in *.
+    assert (quote_body cls 0 s = quote_unit cls s ++ quote_body cls 0 (skipn w s)) as Hq.
+    { subst s. cbn [quote_body]. f_equal. rewrite quote_body_skip. f_equal.
+      fold w. destruct w as [|w']; [lia|]. reflexivity. }
+    rewrite Hq, Hu, <- app_assoc. cbn [app unq_loop].
+    assert ((c =? 34) = false) as -> by lia. assert ((c =? 10) = false) as -> by lia.
+    rewrite Huq. cbn [pred].
+    rewrite unq_skip by reflexivity.
+    rewrite IH.
+    + rewrite firstn_skipn. reflexivity.
+    + rewrite skipn_length. subst s. cbn [length] in *. lia.
+    + apply bytes_skipn. exact Hb.
+Qed.
+
+Theorem unquote_quote : forall cls s, bytes s -> unquote (quote cls s) = Some s.
+Proof.
+  intros cls s Hb. unfold unquote, quote. rewrite N.eqb_refl.
+  rewrite (unq_loop_quote_body cls (length s) s [] (le_n _) Hb). reflexivity.
+Qed.
